@@ -30,6 +30,7 @@ def run(ctx):
     check_printf(ctx, prog)
     check_resize_keep(ctx, prog)
     check_search_restart(ctx, prog)
+    check_index_of_siblings(ctx, prog)
     check_trim(ctx, prog)
     import nullret
     nullret.check(ctx, prog, 'C03', ('String.cpp',))
@@ -365,6 +366,59 @@ def check_resize_keep(ctx, prog):
 
 
 # ------------------------------------------------------------------ C03.search
+
+def check_index_of_siblings(ctx, prog):
+    """C03.search: the String-pattern overloads of indexOf agree with the byte-string model (and hence with their const char*
+    sibling): interpreted (scansim, strstr modelled) on every text over {a, b} up to 4 characters, every pattern up to 3 and
+    every start offset 0..length."""
+    import scansim, itertools
+    n = 0
+    for f in prog.functions:
+        if f.get('pq') != 'asl::String::indexOf' or not f.get('body') or len(f['params']) != 2:
+            continue
+        pt = T(f, f['params'][0]['t'])
+        if T(f, pt.get('to') or 0).get('rec') != 'asl::String':
+            continue
+        role = 'indexOf%s:position of the first occurrence at or after the start offset' % f['sig']
+        bad = None
+        runs = 0
+        try:
+            for L in range(0, 5):
+                for text in itertools.product('ab', repeat=L):
+                    for M in range(1, 4):
+                        for pat in itertools.product('ab', repeat=M):
+                            for i0 in range(0, L + 1):
+                                pid = f['params'][0]['id']
+                                bufs = {'T': [ord(c) for c in text] + [0], ('O', pid): [ord(c) for c in pat] + [0]}
+                                r = scansim.Run(prog, f, bufs, int_params={f['params'][1]['id']: i0}, call_ptrs={'str': ('P', 'T', 0)}, methods={'*': 'interp'}, mems={'_len': L}, objects=True)
+                                r.objlen[pid] = M
+                                r.strobjs.add(pid)
+                                runs += 1
+                                try:
+                                    got = r.run()
+                                except scansim.OOB as o:
+                                    bad = '"%s".indexOf(String("%s"), %d): %s' % (''.join(text), ''.join(pat), i0, o)
+                                    break
+                                want = ''.join(text).find(''.join(pat), i0)
+                                if got != want:
+                                    bad = '"%s".indexOf(String("%s"), %d) is %s, the model gives %d' % (''.join(text), ''.join(pat), i0, got, want)
+                                    break
+                            if bad:
+                                break
+                        if bad:
+                            break
+                    if bad:
+                        break
+                if bad:
+                    break
+        except (scansim.Unsupported, TypeError, KeyError, IndexError):
+            continue
+        n += 1
+        ctx.analysed(f)
+        ctx.evaluations += runs
+        ctx.check(bad is None, 'C03.search', f['pq'], role, fwhere(f), 'interpreted on %d (text, pattern, offset) triples: result = first occurrence at or after the offset, -1 if none' % runs, bad)
+    return n
+
 
 def interp_last_index(ctx, prog, f):
     """lastIndexOf(const char*) decided by interpretation (scansim; indexOf and strstr interpreted / modelled) on every text over
